@@ -274,9 +274,12 @@ Proof. unfold is_prefix. rewrite <- (app_nil_r s) at 1. apply starts_with_app. Q
 
 (** an argument is a candidate for the prefix [p]: its long or one of its aliases starts with [p] *)
 Definition extends (p : bytes) (a : arg) : bool := existsb (is_prefix p) (long_names a).
+(** ... and it is not a positional (positionals have no long keys; their aliases are not consulted) *)
+Definition candidate (p : bytes) (a : arg) : bool := negb (a_is_positional a) && extends p a.
 
 (** the closure inside [parse_long_arg]'s [filter_map] *)
 Definition infer_pick (flag : bytes) (a : arg) : option arg :=
+  if a_is_positional a then None else
   match a_long a with
   | Some l => if is_prefix flag l then Some a
               else if existsb (fun p => is_prefix flag (fst p)) (a_aliases a) then Some a else None
@@ -322,16 +325,17 @@ Lemma parse_long_arg_unfold c flag flag_utf8 value pst pos vaf st :
    parse_long_found c flag value pos vaf st (lookup_long c flag)).
 Proof. reflexivity. Qed.
 
-Lemma infer_pick_extends flag a : infer_pick flag a = if extends flag a then Some a else None.
+Lemma infer_pick_extends flag a : infer_pick flag a = if candidate flag a then Some a else None.
 Proof.
-  unfold infer_pick, extends, long_names. rewrite existsb_app, <- existsb_map_fst.
+  unfold infer_pick, candidate, extends, long_names. rewrite existsb_app, <- existsb_map_fst.
+  destruct (a_is_positional a); cbn [negb andb]; [reflexivity|].
   destruct (a_long a) as [l|]; cbn [existsb].
   - rewrite orb_false_r. destruct (is_prefix flag l); reflexivity.
   - reflexivity.
 Qed.
 
-Lemma infer_pick_some flag a : infer_pick flag a <> None <-> extends flag a = true.
-Proof. rewrite infer_pick_extends. destruct (extends flag a); split; congruence. Qed.
+Lemma infer_pick_some flag a : infer_pick flag a <> None <-> candidate flag a = true.
+Proof. rewrite infer_pick_extends. destruct (candidate flag a); split; congruence. Qed.
 
 (** an exact key always wins *)
 Theorem long_exact_wins c p a : get_long c p = Some a -> lookup_long c p = Some a.
@@ -340,14 +344,14 @@ Proof. unfold lookup_long. intros ->. reflexivity. Qed.
 (** a resolved prefix is an exact key, or inference is on and the argument is the only candidate *)
 Theorem infer_unique c p a : lookup_long c p = Some a ->
   get_long c p = Some a \/
-  (get_long c p = None /\ is_set s_infer_long c = true /\ In a (c_args c) /\ extends p a = true /\
-   forall b, In b (c_args c) -> extends p b = true -> b = a).
+  (get_long c p = None /\ is_set s_infer_long c = true /\ In a (c_args c) /\ candidate p a = true /\
+   forall b, In b (c_args c) -> candidate p b = true -> b = a).
 Proof.
   unfold lookup_long. destruct (get_long c p) as [x|]; [intros H; left; exact H|].
   destruct (is_set s_infer_long c); [|discriminate]. intros H. right.
   apply first_unique_some in H. apply filter_map_singleton in H. destruct H as [x [Hx [Fx U]]].
-  assert (x = a /\ extends p x = true) as [-> Ex].
-  { rewrite infer_pick_extends in Fx. destruct (extends p x); inversion Fx. auto. }
+  assert (x = a /\ candidate p x = true) as [-> Ex].
+  { rewrite infer_pick_extends in Fx. destruct (candidate p x); inversion Fx. auto. }
   repeat split; try assumption; try reflexivity.
   intros b Hb Eb. apply U; [exact Hb|]. apply infer_pick_some. exact Eb.
 Qed.
@@ -355,7 +359,7 @@ Qed.
 (** two distinct candidates and no exact key: nothing is selected *)
 Theorem infer_ambiguous_rejected c p a b :
   get_long c p = None -> In a (c_args c) -> In b (c_args c) -> a <> b ->
-  extends p a = true -> extends p b = true -> lookup_long c p = None.
+  candidate p a = true -> candidate p b = true -> lookup_long c p = None.
 Proof.
   intros G Ha Hb Hab Ea Eb. unfold lookup_long. rewrite G.
   destruct (is_set s_infer_long c); [|reflexivity].
